@@ -7,6 +7,7 @@
 #include <sys/resource.h>
 
 static char basedir[128];
+static long n_flood_sends, n_flood_refused;
 static long n_conns, n_msgs_checked, n_resp_checked, n_events_checked, n_refused_sends, n_emsgsize, n_poll_probes, n_server_runs, n_fc_eagain, n_event_eagain;
 
 static void rm_rf(const char *d) { char cmd[300]; if (getenv("VP_KEEP")) return; snprintf(cmd, sizeof cmd, "rm -rf %s", d); if (system(cmd)) {} }
@@ -60,6 +61,7 @@ static void server_crash_key(const char *dir, int status, char *key, size_t kn, 
 	snprintf(detail, dn, "wait status 0x%x; stderr: %.1800s", status, buf);
 }
 
+static long n_floods_c;
 /* =============================== library client (C02) =============================== */
 struct cl_cfg { char name[64]; int idx; uint64_t seed; size_t max_msg; int nops; int slow; };
 
@@ -126,6 +128,24 @@ static void client_c02(const struct cl_cfg *cc, const char *dir)
 		else if (k < 75) { q->op = OP_EVENTS; q->arg1 = 1 + vp_u(&r, vp_chance(&r, 1, 5) ? 400 : 12); q->arg2 = (uint32_t)(vp_chance(&r, 1, 3) ? maxsz : TP_RES_MIN + vp_u(&r, 300)); len = TP_REQ_MIN; }
 		else if (k < 80) { q->op = OP_RATE; q->arg1 = vp_u(&r, 5); len = TP_REQ_MIN; }
 		else if (k < 84) { q->op = OP_BACKOFF; q->arg1 = 1 + vp_u(&r, 3); len = TP_REQ_MIN; }
+		else if (k < 86) { /* flood: the server is made to stall and gets hundreds of small one-way requests meanwhile, so that the
+			 * request ring, the wake-up socket and the semaphore are all pushed to where sends are refused */
+			int m = 150 + (int)vp_u(&r, 500); int fhow = (int)vp_u(&r, 2); n_floods_c++;
+			for (int j = 0; j <= m && !dead; j++) {
+				memset(q, 0, sizeof *q); n++;
+				q->op = j == 0 ? OP_STALL : OP_NORESP; q->arg1 = 60 + vp_u(&r, 120); len = TP_REQ_MIN;
+				q->hdr.id = QB_IPC_MSG_USER_START + 1 + (int32_t)(n % 50); q->hdr.size = (int32_t)len; q->seq = mkseq(cc->idx, n); q->plen = 0; q->cksum = tp_cksum(q->payload, 0);
+				ssize_t frc; int ftries = 0;
+				for (;;) {
+					if (fhow == 0) frc = qb_ipcc_send(c, q, len); else { struct iovec iov[1] = { { q, len } }; frc = qb_ipcc_sendv(c, iov, 1); }
+					bed_log(L_C_SEND, 0, q->seq, (int64_t)len, frc, q->op, "flood");
+					if (frc == -EAGAIN || frc == -ENOBUFS || frc == -ETIMEDOUT) { if (++ftries > 8000) break; usleep(300); continue; }
+					break;
+				}
+				if (frc != (ssize_t)len && (frc == -ENOTCONN || frc == -ECONNRESET || frc == -EPIPE || frc == -ESHUTDOWN || frc == -EBADF)) dead = 1;
+			}
+			continue;
+		}
 		else if (k < 92) { /* receive side work */
 			if (es.known_pending > 0 || vp_chance(&r, 1, 3)) { take_event(c, rbuf, maxsz, es.known_pending > 0 ? 2000 : 0, &es, fd, 1, NULL); if (es.dead) dead = 1; }
 			continue;
@@ -163,6 +183,15 @@ static void client_c02(const struct cl_cfg *cc, const char *dir)
 				}
 			}
 		}
+	}
+	/* barrier: one-way requests may still be queued; an answered echo behind them says they have all been handed over
+	 * (a client that hangs up with requests still queued is not what this property is about) */
+	if (!dead) {
+		struct tp_req *q = (struct tp_req *)buf; memset(q, 0, sizeof *q); n++;
+		q->op = OP_ECHO; q->hdr.id = QB_IPC_MSG_USER_START + 1; q->hdr.size = (int32_t)TP_REQ_MIN; q->seq = mkseq(cc->idx, n); q->cksum = tp_cksum(q->payload, 0);
+		ssize_t brc; int bt = 0;
+		for (;;) { brc = qb_ipcc_send(c, q, TP_REQ_MIN); bed_log(L_C_SEND, 0, q->seq, (int64_t)TP_REQ_MIN, brc, q->op, "barrier"); if ((brc == -EAGAIN || brc == -ENOBUFS || brc == -ETIMEDOUT) && ++bt < 20000) { usleep(500); continue; } break; }
+		if (brc == (ssize_t)TP_REQ_MIN) expect_resp[nexp++ & 4095] = q->seq;
 	}
 	/* drain what is still owed */
 	while (!dead && hexp < nexp) {
@@ -230,6 +259,7 @@ static void case_c02(long kase)
 			if (C[k].kind == L_C_DISCONNECT) dead = (int)C[k].a;
 			if (C[k].kind != L_C_SEND) continue;
 			int64_t seq = C[k].a, len = C[k].b, rc = C[k].c;
+			if (!strcmp(C[k].text, "flood")) { n_flood_sends++; if (rc < 0) n_flood_refused++; }
 			if (rc == len) {
 				while (si < ns && !(S[si].kind == L_MSG && S[si].conn == conn)) si++;
 				if (si >= ns) { snprintf(key, sizeof key, "ipc:accepted-request-never-delivered:%s", sc.type == QB_IPC_SHM ? "shm" : "socket"); vp_violation(key, "client %d: send of seq %llx (len %lld) returned success, msg_process never got it [%s]", i + 1, (long long)seq, (long long)len, vp.cur_desc); break; }
@@ -306,7 +336,7 @@ int main(int argc, char **argv)
 	}
 	rm_rf(basedir);
 	vp_count("private_dev_shm", private_shm); vp_count("server_runs", n_server_runs); vp_count("connections", n_conns); vp_count("requests_checked", n_msgs_checked); vp_count("responses_checked", n_resp_checked);
-	vp_count("events_checked", n_events_checked); vp_count("sends_refused_and_retried", n_refused_sends); vp_count("sends_refused_by_flow_control", n_fc_eagain);
+	vp_count("flood_sends_at_stalled_server", n_flood_sends); vp_count("flood_sends_refused", n_flood_refused); vp_count("events_checked", n_events_checked); vp_count("sends_refused_and_retried", n_refused_sends); vp_count("sends_refused_by_flow_control", n_fc_eagain);
 	vp_count("oversize_sends_refused", n_emsgsize); vp_count("poll_probes", n_poll_probes); vp_count("event_sends_refused_at_server", n_event_eagain);
 	extra_counts();
 	vp_finish();
